@@ -441,7 +441,7 @@ func (ft *FuncTr) applyContract(st *State, at *Term, in ssa.Instruction, name st
 			return Val{}, unsupported("call of closure with unknown bindings")
 		}
 		for i, fv := range fn.FreeVars {
-			vars[fv.Name()] = SV{Addr: fnv.Binds[i].T, Ty: fv.Type().(*types.Pointer).Elem()}
+			vars[fv.Name()] = bindSV(fnv.Binds[i], fv)
 		}
 	}
 	pre := st.clone()
@@ -479,6 +479,9 @@ func (ft *FuncTr) applyContract(st *State, at *Term, in ssa.Instruction, name st
 			ft.assume(at, Le(oldNext, nv))
 		}
 		st.ghost[n] = nv
+	}
+	for _, n := range sortedKeys(ms.arrays) {
+		ft.h.noteHavoc(st.heap[n], ft.h.nextID(st))
 	}
 	// results
 	res := fsig.Results()
@@ -729,12 +732,49 @@ func (ft *FuncTr) makeClosure(st *State, at *Term, x *ssa.MakeClosure) error {
 	fn := x.Fn.(*ssa.Function)
 	var binds []Val
 	for _, b := range x.Bindings {
-		binds = append(binds, ft.val(b))
+		bv := ft.val(b)
+		if bv.Ref != nil && len(bv.Ref.path) == 0 {
+			// snapshotted cell: bind the current value
+			bv = Val{T: ft.localGet(st, bv.Ref.alloc), CellValue: true}
+		}
+		binds = append(binds, bv)
+	}
+	con := ft.w.contractFor(calleeName(fn))
+	if con != nil && con.Denotes != nil {
+		// the closure value is, by its (separately verified) contract, this spec-level function value
+		con.Used = true
+		vars := map[string]SV{}
+		for i, fv := range fn.FreeVars {
+			vars[fv.Name()] = bindSV(binds[i], fv)
+		}
+		env := &SpecEnv{h: ft.h, w: ft.w, pkg: ft.w.pkgOfFunc(fn), vars: vars, st: st, old: st, qn: &ft.qn}
+		var dv SV
+		err := func() (err error) {
+			defer func() {
+				if r := recover(); r != nil {
+					if se, ok := r.(specErr); ok {
+						err = se
+						return
+					}
+					panic(r)
+				}
+			}()
+			dv = env.tr(con.Denotes)
+			return nil
+		}()
+		if err != nil {
+			return fmt.Errorf("denotes of %s: %v", fn.Name(), err)
+		}
+		dt := env.val(dv)
+		c := ft.d.Fresh("closure_"+fn.Name(), SFn)
+		ft.assume(at, Eq(c, dt))
+		ft.vals[x] = Val{T: dt, Fn: fn, Binds: binds}
+		ft.w.assume("function values are identified with their behaviour (extensionality): closure " + shortFuncName(fn) + " denotes " + con.DenotesText)
+		return nil
 	}
 	t := ft.d.Fresh("closure_"+fn.Name(), SFn)
 	ft.vals[x] = Val{T: t, Fn: fn, Binds: binds}
 	// a pure closure with a functional contract gets its meaning as an axiom on app
-	con := ft.w.contractFor(calleeName(fn))
 	if con == nil || !con.Pure {
 		return nil
 	}
@@ -748,8 +788,18 @@ func (ft *FuncTr) makeClosure(st *State, at *Term, x *ssa.MakeClosure) error {
 	var argT []*Term
 	for i := 0; i < sig.Params().Len(); i++ {
 		p := sig.Params().At(i)
-		srt := ft.w.sortOf(ft.d, p.Type())
 		ft.qn++
+		if el := loweredElem(p.Type()); el != nil {
+			es := ft.w.sortOf(ft.d, el)
+			bn := fmt.Sprintf("%s!cn%d", sanitize(p.Name()), ft.qn)
+			vn := fmt.Sprintf("%s!cv%d", sanitize(p.Name()), ft.qn)
+			bs = append(bs, Bound{bn, SBool}, Bound{vn, es})
+			low := &Lowered{isNil: &Term{bn, SBool}, val: &Term{vn, es}, elem: el}
+			vars[p.Name()] = SV{Low: low, Ty: p.Type()}
+			argT = append(argT, low.isNil, low.val)
+			continue
+		}
+		srt := ft.w.sortOf(ft.d, p.Type())
 		bn := fmt.Sprintf("%s!c%d", sanitize(p.Name()), ft.qn)
 		bs = append(bs, Bound{bn, srt})
 		bt := &Term{bn, srt}
@@ -757,9 +807,9 @@ func (ft *FuncTr) makeClosure(st *State, at *Term, x *ssa.MakeClosure) error {
 		argT = append(argT, bt)
 	}
 	for i, fv := range fn.FreeVars {
-		vars[fv.Name()] = SV{Addr: binds[i].T, Ty: fv.Type().(*types.Pointer).Elem()}
+		vars[fv.Name()] = bindSV(binds[i], fv)
 	}
-	app := ft.h.fnApp(st, t, sig, argT)
+	app := ft.h.fnAppLowered(t, sig, argT)
 	rt := sig.Results().At(0).Type()
 	vars["result"] = SV{T: app, Ty: rt}
 	if n := sig.Results().At(0).Name(); n != "" {
@@ -774,4 +824,12 @@ func (ft *FuncTr) makeClosure(st *State, at *Term, x *ssa.MakeClosure) error {
 		ft.assume(at, Forall(bs, body, []*Term{app}))
 	}
 	return nil
+}
+
+func bindSV(b Val, fv *ssa.FreeVar) SV {
+	ty := fv.Type().(*types.Pointer).Elem()
+	if b.CellValue {
+		return SV{T: b.T, Ty: ty}
+	}
+	return SV{Addr: b.T, Ty: ty}
 }
